@@ -353,17 +353,20 @@ class Suite:
                 key, sd = pr.split(';')
                 kk = [float(Fraction(v)) for v in key.split(':')]
                 s = float(Fraction(sd))
-                if bounded:
-                    want = (kk[0], kk[1] / s, kk[2] / s, kk[3], s)
-                    got = (float(x), float(a[0]), float(a[1]), float(k.get('loc')), float(k.get('scale')))
-                else:
-                    want = (kk[0], s)
-                    got = (float(x), float(k.get('scale')))
+                try:
+                    if bounded:
+                        want = (kk[0], kk[1] / s, kk[2] / s, kk[3], s)
+                        got = (float(x), float(a[0]), float(a[1]), float(k.get('loc')), float(k.get('scale')))
+                    else:
+                        want = (kk[0], s)
+                        got = (float(x), float(k.get('scale')))
+                except (TypeError, ValueError, IndexError):
+                    want, got = 0, 1           # the real code calls the library in another way than the model says
                 if want != got:
                     ok = False
         if not ok:
             self.diverge(family, 'library calls (cache hit/miss pattern or arguments)', head, pred,
-                         [(float(x), [float(v) for v in a], {kk: float(v) for kk, v in k.items()}) for x, a, k in made])
+                         [(_txt(x), [_txt(v) for v in a], {kk: _txt(v) for kk, v in k.items()}) for x, a, k in made])
 
     # ---- jumps
     def jump_checks(self, family, p0, x, ntries=6):
@@ -515,6 +518,14 @@ class Suite:
         if not all(close(a, b, 1e-12) for a, b in zip(mo, ro)) or nmodel != len(draws):
             self.diverge(family, 'jump output / draws consumed', req, (mo, nmodel), (ro, len(draws)))
         return p, out
+
+
+def _txt(v):
+    """a number (or whatever the real code passed instead) as text"""
+    try:
+        return float(v)
+    except (TypeError, ValueError):
+        return repr(numpy.asarray(v).tolist())[:80]
 
 
 class _PairPlan:
@@ -729,12 +740,20 @@ def run_suite(seed, tier):
                     run_instance(S, family, p0, names, doms, kind_, exhaustive=ex)
                 except (ValueError, FloatingPointError, ZeroDivisionError, IndexError) as e:
                     S.diverge(family, 'real code raised', 'instance %d' % j, 'no exception', repr(e)[:300])
+                except (AttributeError, TypeError, KeyError, AssertionError) as e:
+                    # the live object is not built the way the model describes (attributes of the caches,
+                    # shape of the library calls): the correspondence is broken, the search decides
+                    S.diverge(family, 'the real object does not have the structure the model describes',
+                              'instance %d' % j, 'model structure', repr(e)[:300])
             if family in F.ADAPTIVE and family not in Q.EIGEN:
                 for j in range(2 if quick else 10):
                     try:
                         run_adaptive_history(S, family, rng.randrange(1 << 30))
                     except (ValueError, FloatingPointError, ZeroDivisionError, IndexError) as e:
                         S.diverge(family, 'real code raised', 'adaptive history %d' % j, 'no exception', repr(e)[:300])
+                    except (AttributeError, TypeError, KeyError, AssertionError) as e:
+                        S.diverge(family, 'the real object does not have the structure the model describes',
+                                  'adaptive history %d' % j, 'model structure', repr(e)[:300])
         for name in ('uniform_birth', 'normal_birth', 'log_normal_birth'):
             for j in range(4 if quick else 20):
                 b = Q.make_birth(name, rng, 1 + j % 3)
